@@ -317,6 +317,7 @@ type RNode struct {
 	downSeq     uint64
 	FailCommit  func(h uint64) bool
 	BlockCommit func(ctx context.Context, h uint64) // optional: runs inside the commit callback
+	BlockRound  func(ctx context.Context, h uint64) // optional: runs inside the new-round callback
 	ping        *messagesfactory.MessageFactory
 	pingNo      uint64
 }
@@ -458,6 +459,9 @@ func (net *Net) newNode(id string) *RNode {
 				note += fmt.Sprintf(" state=(%d,%d)", hv.Height(), hv.View())
 			}
 			net.Log.Add(spi.Event{Node: id, Kind: spi.EvNewRound, H: uint64(h), Ok: canBeFirstLeader, Block: spi.AsBlk(prev), Note: note})
+			if n.BlockRound != nil {
+				n.BlockRound(ctx, uint64(h))
+			}
 		})
 	n.ping = messagesfactory.NewMessageFactory(spi.InstanceId, net.Keys.Signer("x00"), primitives.MemberId("x00"), 0)
 	return n
